@@ -22,6 +22,8 @@ the code for all inputs:
       does  ->  `if not C: B` followed by A
   N9  `if C: A  REST`, where A and REST both end in return / raise, is an if/else in disguise: the guard branch is chosen
       by content (the smaller one, else the raising one, else the one under the positive test), not by the author
+  N11 `X = []` followed by `for t in IT: X.append(E)` -> `X = [E for t in IT]` (also the if/else-append form -> a
+      conditional expression as element)
   N6  `t = E` immediately followed by `return t`, where every binding of the local t is such a pair and t is used
       nowhere else  -> `return E`
 
@@ -255,8 +257,52 @@ def _stmts(fn, localish, counts):
                 out.append(s_)
         return out
 
+    def append_loop(init, loop):
+        """N11: `X = []` directly followed by `for t in IT: X.append(E)` (or `if C: X.append(A) else: X.append(B)`), no
+        else-arm on the loop, E / C / IT free of X  ->  `X = [E for t in IT]`.  Same elements in the same order, the same
+        calls in the same order; X is not observable between the two statements."""
+        if not (isinstance(init, ast.Assign) and len(init.targets) == 1 and isinstance(init.targets[0], ast.Name) and isinstance(init.value, ast.List) and not init.value.elts):
+            return None
+        x = init.targets[0].id
+        if not (isinstance(loop, ast.For) and not loop.orelse and len(loop.body) == 1):
+            return None
+
+        def appended(st):
+            if isinstance(st, ast.Expr) and isinstance(st.value, ast.Call) and isinstance(st.value.func, ast.Attribute) and st.value.func.attr == "append" and isinstance(st.value.func.value, ast.Name) and st.value.func.value.id == x and len(st.value.args) == 1 and not st.value.keywords:
+                return st.value.args[0]
+            return None
+
+        b = loop.body[0]
+        elt = appended(b)
+        if elt is None and isinstance(b, ast.If) and len(b.body) == 1 and len(b.orelse) == 1:
+            a1, a2 = appended(b.body[0]), appended(b.orelse[0])
+            if a1 is not None and a2 is not None:
+                elt = ast.IfExp(test=b.test, body=a1, orelse=a2)
+        if elt is None:
+            return None
+        for part in (elt, loop.iter, loop.target):
+            if any(isinstance(n, ast.Name) and n.id == x for n in ast.walk(part)):
+                return None
+        if any(isinstance(n, (ast.Yield, ast.YieldFrom, ast.Await, ast.NamedExpr)) for n in ast.walk(elt)):
+            return None
+        comp = ast.ListComp(elt=elt, generators=[ast.comprehension(target=loop.target, iter=loop.iter, ifs=[], is_async=0)])
+        new = ast.Assign(targets=init.targets, value=comp)
+        return ast.copy_location(new, init)
+
     def do_list(body):
         body = guard_form(hoist(body))
+        merged = []
+        k = 0
+        while k < len(body):
+            if k + 1 < len(body):
+                m_ = append_loop(body[k], body[k + 1])
+                if m_ is not None:
+                    merged.append(ast.fix_missing_locations(m_))
+                    k += 2
+                    continue
+            merged.append(body[k])
+            k += 1
+        body = merged
         out = []
         i = 0
         while i < len(body):
